@@ -34,6 +34,22 @@ GridNext == UNCHANGED vars
 GridObs == PrintT(<<"GRID", ToJson([time |-> rem, inc |-> inc, movestogo |-> left,
                                     phase |-> game[1], stm |-> game[2], opp |-> game[3]])>>)
 
+\* ------------------------------------------------------------------ random configuration
+\* NRand pseudo-random parameter points between the grid lines (a linear congruential generator, so that the points are a
+\* function of RandSeed): clocks from 1 ms to 10^7 ms, increments 0 or up to 10^5 ms, moves-to-go 0 or 1..60
+CONSTANTS NRand, RandSeed
+Lcg(x) == (x * 75 + 74) % 65537
+RECURSIVE LcgN(_, _)
+LcgN(x, n) == IF n = 0 THEN x ELSE LcgN(Lcg(x), n - 1)
+R(i, k) == LcgN(((i * 7919 * ((2 * k) + 1)) + (k * k * 31) + (RandSeed * 10473) + 17) % 65537, 3)   \* (a different multiplier per parameter)
+Pow10 == <<1, 10, 100, 1000, 10000>>
+RandInit == /\ \E i \in 1..NRand :
+                 /\ rem = ((R(i, 2) % 1000) + 1) * Pow10[(R(i, 1) % 5) + 1]
+                 /\ inc = IF (R(i, 3) % 3) = 0 THEN 0 ELSE (R(i, 4) % 1000) * Pow10[(R(i, 5) % 3) + 1]
+                 /\ left = IF (R(i, 6) % 2) = 0 THEN 0 ELSE (R(i, 7) % 60) + 1
+                 /\ game = <<(R(i, 8) % 3) * 12, R(i, 9) % 2, R(i, 10) % 3>>
+            /\ bad = FALSE /\ l = 0
+
 \* ------------------------------------------------------------------ the game
 PlayMove(b) ==
     /\ left > 0
